@@ -393,7 +393,39 @@ def run(ctx):
         ok = len(loops) == 1 and len(callm) == 1 and fa.dominates(callm[0][0], loops[0].id) and fa.on_every_normal_path(loops[0].id)
         body_ok = len(loops) == 1 and len(loops[0].ast.body) == 1 and match_stmt("$$dst[$$p] = $$srcv[$$p]", loops[0].ast.body[0]) is not None
         ctx.ob("R-ORDER", "C07.6", f, f"FlowProposal.{m} copies every non-sampling field to its result after the map, on every path", ok and body_ok, "")
-    ctx.floor("C07.6", 2)
+    # forward / inverse symmetry of the per-class field lists: whatever list of extra fields a proposal class fills in its
+    # effective rescale (the MRO method plus any wrapper it installs with `self.rescale = self.<m>`) must also be filled by
+    # its effective inverse_rescale - otherwise those fields of the x-space array stay at the NaN they were allocated with
+    def _effective(k, name):
+        out = []
+        m_ = prog.find_method(k, name)
+        if m_ is not None:
+            out.append(m_)
+        for kk in prog.mro(k):
+            for mm in kk.methods.values():
+                for st_ in walk_no_nested(mm.node):
+                    if isinstance(st_, ast.Assign) and any(is_self_attr(t_, name) for t_ in st_.targets) and isinstance(st_.value, ast.Attribute) and isinstance(st_.value.value, ast.Name) and st_.value.value.id == "self":
+                        w_ = prog.find_method(k, st_.value.attr)
+                        if w_ is not None and w_ not in out:
+                            out.append(w_)
+        return out
+
+    def _field_lists(fns):
+        out = set()
+        for f_ in fns:
+            for n_ in walk_no_nested(f_.node):
+                if isinstance(n_, ast.For) and isinstance(n_.target, ast.Name):
+                    for b_ in ast.walk(n_):
+                        if isinstance(b_, ast.Assign) and any(isinstance(t_, ast.Subscript) and isinstance(t_.slice, ast.Name) and t_.slice.id == n_.target.id for t_ in b_.targets):
+                            out.add(canon(n_.iter))
+        return out
+
+    n_sym = 0
+    for k in [fpc] + prog.subclasses(fpc):
+        fl, il = _field_lists(_effective(k, "rescale")), _field_lists(_effective(k, "inverse_rescale"))
+        n_sym += 1
+        ctx.ob("R-SIB", "C07.6", k.qual, f"{k.name}: every list of extra fields filled by the (effective) rescale is also filled by the (effective) inverse_rescale", fl <= il, f"rescale fills {sorted(fl)}; inverse_rescale fills {sorted(il)}; missing in the inverse: {sorted(fl - il)}")
+    ctx.floor("C07.6", 2 + 5)
 
     # ---- C07.7 update / reset completeness ---------------------------------------------------------------
     for k in concrete:
@@ -502,6 +534,7 @@ _RS = "nessai/reparameterisations/rescale.py"
 _AN = "nessai/reparameterisations/angle.py"
 _GW = "nessai/gw/utils.py"
 MUTANTS = [
+    {"id": "augment-fields-not-carried-back", "file": "nessai/proposal/augmented.py", "old": "        self._base_inverse_rescale = self.inverse_rescale\n        self.inverse_rescale = self._augmented_inverse_rescale\n", "new": "", "expect": "also filled by the (effective) inverse_rescale"},
     {"id": "missing-inverse", "file": "nessai/gw/reparameterisations.py", "old": "    def inverse_reparameterise(self, x, x_prime, log_j, **kwargs):", "new": "    def _inverse(self, x, x_prime, log_j, **kwargs):", "expect": "DeltaPhaseReparameterisation.inverse_reparameterise is implemented"},
     {"id": "registry-bad-keyword", "file": "nessai/reparameterisations/__init__.py", "old": '"offset": (RescaleToBounds, {"offset": True}),', "new": '"offset": (RescaleToBounds, {"offsets": True}),', "expect": "registry entry 'offset'"},
     {"id": "alias-unregistered", "file": "nessai/gw/proposal.py", "old": '"geocent_time": ("time", None),', "new": '"geocent_time": ("time-offset", None),', "expect": "GW alias 'geocent_time'"},
